@@ -32,7 +32,7 @@ from netqasm.sdk.epr_socket import EPRSocket  # noqa: E402
 from netqasm.sdk.qubit import Qubit  # noqa: E402
 
 KEEP_APIS = ("recv_keep", "recv_keep_with_info", "recv_rsp", "recv_rsp_with_info")
-MAX_QUBITS = 6
+MAX_QUBITS = 7
 
 # ------------------------------------------------------------------ rendering (own, not __str__)
 
@@ -70,11 +70,12 @@ def render(cmd):
 def _hardware(hw):
     from netqasm.sdk.transpile import NVSubroutineTranspiler
     if hw == "generic":
-        return dict(hardware_config=GenericHardwareConfig(MAX_QUBITS))
+        return dict(hardware_config=GenericHardwareConfig(MAX_QUBITS), max_qubits=MAX_QUBITS)
     if hw == "nv":
-        return dict(hardware_config=NVHardwareConfig(MAX_QUBITS))
+        return dict(hardware_config=NVHardwareConfig(MAX_QUBITS), max_qubits=MAX_QUBITS)
     if hw == "nvc":
-        return dict(hardware_config=NVHardwareConfig(MAX_QUBITS), compiler=NVSubroutineTranspiler)
+        return dict(hardware_config=NVHardwareConfig(MAX_QUBITS), compiler=NVSubroutineTranspiler,
+                    max_qubits=MAX_QUBITS)
     raise ValueError(hw)
 
 
@@ -107,6 +108,14 @@ def _call_api(sock, sc, conn):
             kw["sequential"] = mode == "seq"
     elif mode != "plain":
         raise ValueError("post routines exist for recv_keep only")
+    if api == "recv_measure" and sc.get("via") == "builder":
+        from netqasm.sdk.build_epr import EntRequestParams
+        rl, rr = tuple(sc["rot_local"]), tuple(sc["rot_remote"])
+        out = conn.builder.sdk_recv_epr_measure(params=EntRequestParams(
+            remote_node_id=sock.remote_node_id, epr_socket_id=sock._epr_socket_id, number=n,
+            post_routine=None, sequential=False, expect_phi_plus=sc.get("expect", True),
+            rotations_local=rl, rotations_remote=rr))
+        return [], out
     out = getattr(sock, api)(**kw)
     if api.endswith("_with_info"):
         return out[0], out[1]
@@ -287,7 +296,9 @@ def execute(sc):
     """Run the scenario on the real pipeline. Returns a dict with the observations."""
     P.reset_globals()
     n, live_n = sc["n"], sc["live"]
-    n_local = live_n + 2 * n + 2  # generous: memory qubits of the NV move path, scratch
+    # local physical qubits: live ones, the pairs' arrival qubits, and on NV the memory qubits the
+    # states are moved to plus one relocation target
+    n_local = live_n + n + (n + 1 if sc["hw"] != "generic" else 0)
     ex = P.StateVectorExecutor(name="alice", n_phys=n_local + n)
     sock = EPRSocket("bob")
     conn = BellConn("alice", executor=ex, epr_sockets=[sock], **_hardware(sc["hw"]))
@@ -382,3 +393,30 @@ def judge(sc, obs, tol=1e-9):
     if "info_bells" in obs and obs["info_bells"] != list(sc["bells"]):
         bad.append({"info_bells": obs["info_bells"], "wanted": list(sc["bells"])})
     return bad
+
+
+# ------------------------------------------------------------------ measure-directly physics (numpy)
+
+
+def _rx(t):
+    return np.array([[np.cos(t / 2), -1j * np.sin(t / 2)], [-1j * np.sin(t / 2), np.cos(t / 2)]])
+
+
+def _ry(t):
+    return np.array([[np.cos(t / 2), -np.sin(t / 2)], [np.sin(t / 2), np.cos(t / 2)]], dtype=complex)
+
+
+def joint_distribution(bell, rot_local, rot_remote):
+    """P[l][r] when both halves of the Bell state are rotated (X by a, Y by b, X by c; units of pi/16)
+    and measured in the computational basis."""
+    def u(rot):
+        a, b, c = (x * np.pi / 16 for x in rot)
+        return _rx(c) @ _ry(b) @ _rx(a)
+    psi = np.kron(u(rot_local), u(rot_remote)) @ BELL_VECS[bell]
+    p = np.abs(psi) ** 2
+    return [[float(p[0]), float(p[1])], [float(p[2]), float(p[3])]]
+
+
+def basis_rotations():
+    from netqasm.sdk.build_epr import EprMeasBasis, basis_to_rotation
+    return {m.name: tuple(int(x) for x in basis_to_rotation(m)) for m in EprMeasBasis}
